@@ -32,8 +32,9 @@ type MC struct {
 	// MaxRead > 0 limits the bytes returned by one Read (segmentation)
 	MaxRead int
 
-	Starved int // reads with nothing pending on an open connection
-	Name    string
+	Starved  int // reads with nothing pending on an open connection
+	EOFReads int
+	Name     string
 }
 
 const (
@@ -87,26 +88,26 @@ func NewMC(name string, now int64) *MC {
 
 // Opcodes (memcached binary protocol + rend's gete extension).
 const (
-	opGet      = 0x00
-	opSet      = 0x01
-	opAdd      = 0x02
-	opReplace  = 0x03
-	opDelete   = 0x04
-	opGetQ     = 0x09
-	opNoop     = 0x0a
-	opAppend   = 0x0e
-	opPrepend  = 0x0f
-	opSetQ     = 0x11
-	opTouch    = 0x1c
-	opGat      = 0x1d
-	opGatQ     = 0x1e
-	opGetE     = 0x40
-	opGetEQ    = 0x41
-	stOK       = 0x00
-	stEnoent   = 0x01
-	stExists   = 0x02
+	opGet       = 0x00
+	opSet       = 0x01
+	opAdd       = 0x02
+	opReplace   = 0x03
+	opDelete    = 0x04
+	opGetQ      = 0x09
+	opNoop      = 0x0a
+	opAppend    = 0x0e
+	opPrepend   = 0x0f
+	opSetQ      = 0x11
+	opTouch     = 0x1c
+	opGat       = 0x1d
+	opGatQ      = 0x1e
+	opGetE      = 0x40
+	opGetEQ     = 0x41
+	stOK        = 0x00
+	stEnoent    = 0x01
+	stExists    = 0x02
 	stNotStored = 0x05
-	stUnknown  = 0x81
+	stUnknown   = 0x81
 )
 
 func (m *MC) item(key string) *Item {
@@ -349,6 +350,12 @@ func (m *MC) Write(p []byte) (int, error) {
 func (m *MC) Read(p []byte) (int, error) {
 	if len(m.out) == 0 {
 		if m.broken || m.Closed > 0 {
+			// a handler that keeps reading a connection that is gone is spinning
+			m.EOFReads++
+			if m.EOFReads > 64 {
+				rt.Fail("c10-keeps-reading-a-broken-backend-connection", "more than 64 reads after the backend connection was closed")
+				rt.Stop()
+			}
 			return 0, io.EOF
 		}
 		m.Starved++
